@@ -307,3 +307,71 @@ theorem bridge_shape :
   ⟨rfl, rfl, rfl, rfl, rfl, rfl, rfl, rfl, rfl, rfl⟩
 
 end ElexModel.S3
+
+/-! ### the listing with the source's own decisions
+
+`listVersionsSrc` is the recursion skeleton of `list_versions` (take a page, recurse on the marker, filter at every level) with its three
+decision points — whether to ask for the next page, the start filter, the end filter — taken from the regenerated source terms. It is
+proved equal to the model `listVersions`, so the window theorem holds for it. -/
+
+namespace ElexModel.S3
+
+def contSrc (s : Option ℤ) (page rem : List Ver) : Bool :=
+  match page.getLast? with
+  | some l => Gen.C19.continue_cond (!rem.isEmpty) (page.length : ℚ) s.isNone l.ts (s.getD 0)
+  | none => false   -- `len(versions) > 0` fails on an empty page
+
+/-- `if self.start_date is not None: filter(v.LastModified >= start)` -/
+def keepStartSrc (s : Option ℤ) (v : Ver) : Bool :=
+  match s with
+  | some s => Gen.C19.keep_after_start v.ts s
+  | none => true
+
+/-- `if self.end_date is not None: filter(v.LastModified <= end)` -/
+def keepEndSrc (e : Option ℤ) (v : Ver) : Bool :=
+  match e with
+  | some e => Gen.C19.keep_before_end v.ts e
+  | none => true
+
+def listVersionsSrc (k : ℕ) (s e : Option ℤ) : ℕ → List Ver → List Ver
+  | 0, _ => []
+  | fuel+1, rest =>
+    let page := rest.take (k+1)
+    let rem := rest.drop (k+1)
+    let vs := if contSrc s page rem then page ++ listVersionsSrc k s e fuel rem else page
+    (vs.filter (keepStartSrc s)).filter (keepEndSrc e)
+
+theorem contSrc_eq (s : Option ℤ) (page rem : List Ver) : contSrc s page rem = cont s page rem := by
+  unfold contSrc
+  cases h : page.getLast? with
+  | none =>
+    have : page = [] := by simpa using h
+    subst this; simp [cont]
+  | some l => exact (bridge_cont s page rem l h).symm
+
+theorem keepStartSrc_eq (s : Option ℤ) : keepStartSrc s = geS s := by
+  funext v; cases s with
+  | none => rfl
+  | some s => exact ((bridge_filters s 0 v).1).symm
+
+theorem keepEndSrc_eq (e : Option ℤ) : keepEndSrc e = leE e := by
+  funext v; cases e with
+  | none => rfl
+  | some e => exact ((bridge_filters 0 e v).2).symm
+
+theorem listVersionsSrc_eq (k : ℕ) (s e : Option ℤ) (fuel : ℕ) (vs : List Ver) :
+    listVersionsSrc k s e fuel vs = listVersions k s e fuel vs := by
+  induction fuel generalizing vs with
+  | zero => rfl
+  | succ fuel ih =>
+    unfold listVersionsSrc listVersions
+    simp only [contSrc_eq, ih]
+    rw [keepStartSrc_eq, keepEndSrc_eq]
+
+/-- **C19 on the source**: with the paging decision and the two filters as they are written in `/repo/src` today, the listing is
+    exactly the window, whatever the page size -/
+theorem source_list_exact (k : ℕ) (s e : Option ℤ) (vs : List Ver) (hd : Desc vs) :
+    listVersionsSrc k s e vs.length vs = vs.filter (inWin s e) := by
+  rw [listVersionsSrc_eq]; exact list_exact_len k s e vs hd
+
+end ElexModel.S3
